@@ -252,16 +252,22 @@ pub fn ref_tick(pre: &RefState, cands: &[Cand]) -> RefTick {
         blockers.push(bl);
     }
     let mut ops: Vec<WarpOp> = Vec::new();
+    let mut program_panics = false;
     for (i, c) in set.iter().enumerate() {
         if !accepted[i] {
             continue;
         }
         let w = ids::warp(c.cand.w);
         if let Some(inst) = pre.inst.get(&w.0) {
-            interpret(&c.prog, inst, w, &c.cand.scope(), &mut |op| ops.push(op));
+            let mut local: Vec<WarpOp> = Vec::new();
+            let r = crate::kernel::catch(|| interpret(&c.prog, inst, w, &c.cand.scope(), &mut |op| local.push(op)));
+            if r.is_err() {
+                program_panics = true;
+            }
+            ops.extend(local);
         }
     }
-    let merged = ref_merge(ops);
+    let merged = if program_panics { Err(()) } else { ref_merge(ops) };
     let post = match &merged {
         Ok(ops) => {
             let mut s = pre.clone();
